@@ -9,7 +9,7 @@ PIN = {'VFIO_TIME': '1700000000', 'VFIO_PID': '4242', 'VFIO_HOST': 'pinned'}
 # errno a call can legitimately exhibit (quick tier uses the first of each list)
 ERRNOS = {
     'fopen': ['EACCES'], 'opendir': ['EACCES', 'EMFILE'], 'readdir': ['EIO'], 'closedir': ['EIO'],
-    'openat': ['ENOSPC', 'EACCES', 'EMFILE'], 'open': ['EMFILE', 'EACCES'], 'read': ['EIO'], 'write': ['ENOSPC', 'EIO'],
+    'openat': ['ENOSPC', 'EACCES', 'EMFILE'], 'open': ['EMFILE', 'EACCES'], 'read': ['EIO', 'EINTR'], 'write': ['ENOSPC', 'EINTR', 'EIO'],
     'fsync': ['EIO', 'ENOSPC'], 'close': ['EIO'], 'renameat': ['EACCES', 'ENOSPC', 'ENOENT'], 'unlinkat': ['EACCES', 'ENOENT', 'EIO'], 'unlink': ['EACCES'],
     'mkdir': ['ENOSPC', 'EACCES'], 'mkdtemp': ['EACCES', 'ENOSPC'], 'mkstemp': ['ENOSPC', 'EMFILE'], 'rmdir': ['EACCES'],
     'fstatat': ['EACCES'], 'stat': ['EACCES'], 'utimensat': ['EPERM'], 'dup': ['EMFILE'], 'lseek': ['EIO'], 'fdopen': ['ENOMEM'],
